@@ -12,6 +12,8 @@
 (*   - Save(t, v) / Load(t, buf, ptr) for a type universe                  *)
 (*        t ::= u8 | i32 | i64 | f64 | str | json | podvec<u8|i32|i64>     *)
 (*            | seq<t> (vector, list) | set<t> | map<t,t> | pair<t,t>      *)
+(*            | mmap<t,t> (std::multimap) | mset<t> (std::multiset; `by' =  *)
+(*              0: ordered by the element, i: by field i of a struct)       *)
 (*            | ptr<t> (null / value) | struct<t,...>                       *)
 (*     (the wire format of cppcms/archive_traits.h);                       *)
 (*   - two TLC-explorable machines over these operators (Leg D):           *)
@@ -124,9 +126,9 @@ Save(t, v) ==
     CASE t.k \in {"u8", "i32", "i64", "f64"} -> Chunk(PodBytes(t, v))
       [] t.k \in {"str", "json"} -> Chunk(v)
       [] t.k = "podvec" -> Chunk(Flatten([i \in 1..Len(v) |-> PodBytes(t.t, v[i])]))
-      [] t.k \in {"seq", "set"} ->
+      [] t.k \in {"seq", "set", "mset"} ->
             Chunk(LE64(Len(v))) \o Flatten([i \in 1..Len(v) |-> Save(t.t, v[i])])
-      [] t.k = "map" ->
+      [] t.k \in {"map", "mmap"} ->
             Chunk(LE64(Len(v))) \o Flatten([i \in 1..Len(v) |-> Save(t.a, v[i][1]) \o Save(t.b, v[i][2])])
       [] t.k = "pair" -> Save(t.a, v[1]) \o Save(t.b, v[2])
       [] t.k = "ptr" -> IF v.null THEN Chunk(<<1>>) ELSE Chunk(<<0>>) \o Save(t.t, v.v)
@@ -159,6 +161,19 @@ MapInsert(t, s, kv) == IF Len(s) = 0 THEN <<kv>>
                        ELSE IF s[1][1] = kv[1] THEN s
                        ELSE IF Less(t, kv[1], s[1][1]) THEN <<kv>> \o s
                        ELSE <<s[1]>> \o MapInsert(t, Tail(s), kv)
+
+\* std::multimap / std::multiset: an element goes behind every element whose key is not greater
+\* (C++11 23.2.4: insert(value) puts it at the upper bound of its equivalence range), so a multi-container
+\* is a SEQUENCE in key order, stable among equivalent keys; Save writes it in that order and Load must
+\* reproduce it.  by = 0: the element is its own key, by = i: component i (pair: 1 = the key).
+BagKey(by, x) == IF by = 0 THEN x ELSE x[by]
+RECURSIVE BagInsert(_, _, _, _)
+BagInsert(kt, by, s, x) == IF Len(s) = 0 THEN <<x>>
+                           ELSE IF Less(kt, BagKey(by, x), BagKey(by, s[1])) THEN <<x>> \o s
+                           ELSE <<s[1]>> \o BagInsert(kt, by, Tail(s), x)
+RECURSIVE FoldBag(_, _, _, _, _)
+FoldBag(kt, by, s, i, acc) == IF i > Len(s) THEN acc ELSE FoldBag(kt, by, s, i + 1, BagInsert(kt, by, acc, s[i]))
+MsetKeyType(t) == IF t.by = 0 THEN t.t ELSE t.t.fs[t.by]
 
 RECURSIVE Load(_, _, _), LoadN(_, _, _, _, _), LoadFields(_, _, _, _, _)
 
@@ -193,19 +208,21 @@ Load(t, b, p) ==
                ELSE IF s.size % w # 0 THEN Bad("format", p, 0)
                ELSE LET d == Slice(b, p + 4, s.size)
                     IN Good([i \in 1..(s.size \div w) |-> PodOf(t.t, [j \in 1..w |-> d[(i - 1) * w + j]])], p + 4 + s.size)
-      [] t.k \in {"seq", "set"} ->
+      [] t.k \in {"seq", "set", "mset"} ->
             LET c == ReadChunk(b, p, 8)
             IN IF ~c.ok THEN Bad(c.why, p, c.over)
                ELSE LET r == LoadN(t.t, b, c.np, CountOf(c.data), <<>>)
                     IN IF ~r.ok THEN r
                        ELSE IF t.k = "seq" THEN r
-                       ELSE Good(FoldSet(t.t, r.v, 1, <<>>), r.np)
-      [] t.k = "map" ->
+                       ELSE IF t.k = "set" THEN Good(FoldSet(t.t, r.v, 1, <<>>), r.np)
+                       ELSE Good(FoldBag(MsetKeyType(t), t.by, r.v, 1, <<>>), r.np)
+      [] t.k \in {"map", "mmap"} ->
             LET c == ReadChunk(b, p, 8)
             IN IF ~c.ok THEN Bad(c.why, p, c.over)
                ELSE LET r == LoadN([k |-> "pair", a |-> t.a, b |-> t.b], b, c.np, CountOf(c.data), <<>>)
                     IN IF ~r.ok THEN r
-                       ELSE Good(FoldMap(t.a, r.v, 1, <<>>), r.np)
+                       ELSE IF t.k = "map" THEN Good(FoldMap(t.a, r.v, 1, <<>>), r.np)
+                       ELSE Good(FoldBag(t.a, 1, r.v, 1, <<>>), r.np)
       [] t.k = "pair" -> LoadFields(<<t.a, t.b>>, 1, b, p, <<>>)
       [] t.k = "ptr" ->
             LET f == ReadChunk(b, p, 1)
@@ -214,6 +231,14 @@ Load(t, b, p) ==
                ELSE LET r == Load(t.t, b, f.np)
                     IN IF ~r.ok THEN r ELSE Good([null |-> FALSE, v |-> r.v], r.np)
       [] t.k = "struct" -> LoadFields(t.fs, 1, b, p, <<>>)
+
+\* does the type contain a multi-container (order among equivalent keys matters)?
+RECURSIVE HasBag(_)
+HasBag(t) == CASE t.k \in {"mmap", "mset"} -> TRUE
+               [] t.k \in {"podvec", "seq", "set", "ptr"} -> HasBag(t.t)
+               [] t.k \in {"map", "pair"} -> HasBag(t.a) \/ HasBag(t.b)
+               [] t.k = "struct" -> \E i \in 1..Len(t.fs) : HasBag(t.fs[i])
+               [] OTHER -> FALSE
 
 ---------------------------------------------------------------------------
 (* Leg D, machine V: the value universe *)
@@ -231,6 +256,9 @@ Cons(S, P) ==
   \cup [k : {"seq"}, t : S]
   \cup [k : {"set"}, t : KeyT]
   \cup [k : {"map"}, a : KeyT, b : P]
+  \cup [k : {"mmap"}, a : KeyT, b : P]
+  \cup [k : {"mset"}, t : KeyT, by : {0}]
+  \cup { [k |-> "mset", t |-> [k |-> "struct", fs |-> <<I32, STR>>], by |-> 1] }
   \cup [k : {"pair"}, a : P, b : S]
   \cup [k : {"ptr"}, t : S]
   \cup { [k |-> "struct", fs |-> <<a, c>>] : a \in P, c \in S }
@@ -258,6 +286,10 @@ Vals(t) ==
       [] t.k = "set" -> { SortSet(t.t, S) : S \in { X \in SUBSET Vals(t.t) : Cardinality(X) <= Width } }
       [] t.k = "map" -> UNION { { [i \in 1..Len(ks) |-> <<ks[i], f[i]>>] : f \in [1..Len(ks) -> Vals(t.b)] }
                                 : ks \in { SortSet(t.a, S) : S \in { X \in SUBSET Vals(t.a) : Cardinality(X) <= Width } } }
+      [] t.k = "mmap" -> { q \in SeqsUpTo({ <<x, y>> : x \in Vals(t.a), y \in Vals(t.b) }, Width) :
+                               \A i \in 1..(Len(q) - 1) : ~Less(t.a, q[i + 1][1], q[i][1]) }
+      [] t.k = "mset" -> { q \in SeqsUpTo(Vals(t.t), Width) :
+                               \A i \in 1..(Len(q) - 1) : ~Less(MsetKeyType(t), BagKey(t.by, q[i + 1]), BagKey(t.by, q[i])) }
       [] t.k = "pair" -> { <<x, y>> : x \in Vals(t.a), y \in Vals(t.b) }
       [] t.k = "ptr" -> {[null |-> TRUE]} \cup { [null |-> FALSE, v |-> x] : x \in Vals(t.t) }
       [] t.k = "struct" -> IF Len(t.fs) = 2 THEN { <<x, y>> : x \in Vals(t.fs[1]), y \in Vals(t.fs[2]) }
